@@ -3,7 +3,11 @@
 // dialer and the response modifier were called with, what the client
 // received, and what the proxy did to the client socket after a hijack.
 //
-// IN tokens:  (K req*)+      one K per client connection (played one after the other)
+// IN tokens:  [D] (K req*)+   one K per client connection (played one after the other)
+//
+//	D    the proxy is configured with a downstream proxy (SetDownstreamProxy): a blindly
+//	     tunnelled CONNECT is sent to that proxy, which answers it and carries the tunnel;
+//	     plain http requests are forwarded to it by a real http.Transport
 //
 //	req = <mode><reqmod><rt><resmod><close>
 //	  mode   g plain request | b CONNECT on a proxy without MITM (blind tunnel) | m CONNECT on a MITM proxy
@@ -41,6 +45,7 @@ import (
 	"io"
 	"net"
 	"net/http"
+	"net/url"
 	"os"
 	"sort"
 	"strconv"
@@ -85,6 +90,58 @@ type env struct {
 	ctxOf    map[int]*martian.Context
 	lastQ    int
 	tunAddr  string
+	via      bool // downstream proxy configured
+}
+
+// fake downstream proxy (one per process): answers CONNECT with 200 and then
+// serves one request inside the tunnel like the tunnel origin does; answers
+// anything else with 203 "ok" like the scripted round tripper.
+var (
+	downOnce sync.Once
+	downAddr string
+	downBase *http.Transport
+)
+
+func downstream() (string, *http.Transport) {
+	downOnce.Do(func() {
+		l, err := net.Listen("tcp", "127.0.0.1:0")
+		if err != nil {
+			panic(err)
+		}
+		downAddr = l.Addr().String()
+		go http.Serve(l, http.HandlerFunc(func(w http.ResponseWriter, r *http.Request) {
+			if r.Method != "CONNECT" {
+				w.Header().Set("Content-Type", "text/plain")
+				w.Header().Set("Content-Length", "2")
+				w.WriteHeader(203)
+				io.WriteString(w, "ok")
+				return
+			}
+			hj, ok := w.(http.Hijacker)
+			if !ok {
+				w.WriteHeader(500)
+				return
+			}
+			c, brw, err := hj.Hijack()
+			if err != nil {
+				return
+			}
+			defer c.Close()
+			c.SetDeadline(time.Now().Add(10 * time.Second))
+			io.WriteString(brw, "HTTP/1.1 200 Connection established\r\n\r\n")
+			brw.Flush()
+			if _, err := http.ReadRequest(brw.Reader); err != nil {
+				return
+			}
+			io.WriteString(brw, "HTTP/1.1 204 No Content\r\nConnection: close\r\nX-Tunnel-Origin: 1\r\n\r\n")
+			brw.Flush()
+		}))
+		downBase = &http.Transport{
+			Proxy:              http.ProxyURL(&url.URL{Scheme: "http", Host: downAddr}),
+			DisableCompression: true,
+		}
+	})
+	return downAddr, downBase
 }
 
 func (e *env) linked() string {
@@ -241,6 +298,21 @@ func (e *env) RoundTrip(req *http.Request) (*http.Response, error) {
 	case 'N':
 		rr = nil
 	}
+	if e.via && req.URL != nil && req.URL.Scheme == "http" {
+		// really forward through the downstream proxy (the wrapper forwards
+		// the copy when it is of the copying kind)
+		_, base := downstream()
+		fwd := req
+		if beh.rt == 'C' {
+			fwd = rr
+		}
+		res, err := base.RoundTrip(fwd)
+		if err != nil {
+			return nil, err
+		}
+		res.Request = rr
+		return res, nil
+	}
 	return &http.Response{
 		StatusCode: 203, Status: "203 Non-Authoritative Information", Proto: "HTTP/1.1", ProtoMajor: 1, ProtoMinor: 1,
 		Header: http.Header{"Content-Type": {"text/plain"}}, Body: io.NopCloser(strings.NewReader("ok")), ContentLength: 2, Request: rr,
@@ -257,7 +329,11 @@ func (e *env) dial(network, addr string) (net.Conn, error) {
 	if beh.rt == 'F' {
 		return nil, errors.New("dial-failure")
 	}
-	return net.DialTimeout("tcp", e.tunAddr, 5*time.Second)
+	target := e.tunAddr
+	if e.via {
+		target = addr // the downstream proxy: connect() sends it the CONNECT request
+	}
+	return net.DialTimeout("tcp", target, 5*time.Second)
 }
 
 // tunnel origin: answers one request with 204 and closes.
@@ -447,6 +523,10 @@ func (e *env) playConn(addr string, toks []reqTok, base int, roots *tls.Config) 
 }
 
 func runCase(in []string) (out []string) {
+	via := false
+	if len(in) > 0 && in[0] == "D" {
+		via, in = true, in[1:]
+	}
 	var conns [][]reqTok
 	useMitm, blind := false, false
 	for _, t := range in {
@@ -470,7 +550,7 @@ func runCase(in []string) (out []string) {
 		return []string{"INVALID"}
 	}
 	rec := p2x.NewRec()
-	e := &env{rec: rec, script: map[int]reqTok{}, retained: map[int]*http.Request{}, ctxOf: map[int]*martian.Context{}, lastQ: 994}
+	e := &env{via: via, rec: rec, script: map[int]reqTok{}, retained: map[int]*http.Request{}, ctxOf: map[int]*martian.Context{}, lastQ: 994}
 	n := 0
 	for _, c := range conns {
 		for _, t := range c {
@@ -490,6 +570,10 @@ func runCase(in []string) (out []string) {
 	p.SetTimeout(20 * time.Second)
 	p.SetRoundTripper(e)
 	p.SetDial(e.dial)
+	if via {
+		da, _ := downstream()
+		p.SetDownstreamProxy(&url.URL{Scheme: "http", Host: da})
+	}
 	p.SetRequestModifier(e)
 	p.SetResponseModifier(e)
 	var ccfg *tls.Config
@@ -606,6 +690,10 @@ func main() {
 		cfg.Emit(hx.Case{Name: fmt.Sprintf("%s%d", kind, n), In: in, Out: runCase(in)})
 		nreq, modes := 0, map[byte]bool{}
 		for _, t := range in {
+			if t == "D" {
+				cfg.Count("downstream_proxy=1")
+				continue
+			}
 			if t != "K" {
 				nreq++
 				modes[t[0]] = true
@@ -638,6 +726,17 @@ func main() {
 			emit("one", []string{"K", t})
 		}
 	}
+	//    the same with a downstream proxy configured (CONNECT answered by that proxy)
+	for _, m := range []byte("gbm") {
+		for _, t := range allToks(m, true) {
+			emit("done", []string{"D", "K", t})
+		}
+	}
+	for _, m := range []byte("gb") {
+		for _, t := range allToks(m, m == 'g') {
+			emit("dthen", []string{"D", "K", t, "gPOPk", "gECAk", "K", "gPNPk"})
+		}
+	}
 	// 2. every behaviour followed by a plain passing request and a second connection
 	//    (what happens after an error / skip / hijack / close; session per connection)
 	for _, m := range []byte("gbm") {
@@ -666,6 +765,9 @@ func main() {
 		r := rng.Fork()
 		kind := "gbm"[r.Intn(3)]
 		var in []string
+		if r.Chance(1, 3) {
+			in = append(in, "D")
+		}
 		for c, nc := 0, r.Range(1, 3); c < nc; c++ {
 			in = append(in, "K")
 			in = append(in, randConn(r, kind, 5)...)
